@@ -15,6 +15,9 @@
 //
 // Round 7 (spell.go): how the client spells a request - target form x Host header x protocol version, including
 // requests that name no host and that only a request modifier ("route") makes routable.
+//
+// Round 8 (draws.go): the proxy's random source (crypto/rand.Reader) is scripted by the scenario - pairwise different
+// draws that differ in a single byte, at every position - and all context ids and session ids must still differ.
 package main
 
 import (
@@ -53,6 +56,7 @@ type scenario struct {
 	Beh2   []string `json:",omitempty"` // behaviours of the second connection (default: one "pass" exchange)
 	After  bool     `json:",omitempty"` // once everything has quiesced (all earlier connections closed) a further connection runs one plain exchange
 	Spell  []string `json:",omitempty"` // round 7: how the client spells each request of connection 0 ("<target form>,<Host header>,<version>", see spell.go; "" = the usual spelling)
+	Draws  string   `json:",omitempty"` // round 8: what the proxy's random source (crypto/rand.Reader) returns during the execution: pairwise different 8-byte draws that differ in one byte only ("byte=<p>,step=<lo|hi>,base=<hex>", see draws.go; "" = the operating system's source)
 	Lean   bool     `json:",omitempty"` // the harness modifiers do not probe the session's value store and the requests of earlier exchanges (each probe is a lock operation in martian, i.e. a scheduling point); set for the scenarios explored at deviation bound 3
 }
 
@@ -69,6 +73,9 @@ func (s scenario) String() string {
 	}
 	if s.Spell != nil {
 		out += fmt.Sprintf(" spelling=%q", s.Spell)
+	}
+	if s.Draws != "" {
+		out += fmt.Sprintf(" random-draws={%s}", s.Draws)
 	}
 	return out
 }
@@ -224,6 +231,7 @@ func run(sc scenario) (body func(), check func(r *vrt.Result) []finding) {
 	var obs []*clientObs
 	var hijackRetTick map[string]int
 	var srvConn map[string]*simnet.Conn
+	var rnd *scriptedRand
 	behOf := func(conn, seq string) string {
 		_, beh := sc.spec(conn)
 		var k int
@@ -240,6 +248,14 @@ func run(sc scenario) (body func(), check func(r *vrt.Result) []finding) {
 		hijackRetTick = map[string]int{}
 		srvConn = map[string]*simnet.Conn{}
 		staleCtx = 0
+		// the random source belongs to the scenario (round 8): a scripted one for this execution, else the
+		// operating system's; put back when the execution ends
+		rnd = nil
+		if sc.Draws != "" {
+			rnd = &scriptedRand{script: sc.Draws}
+		}
+		installRand(rnd)
+		defer installRand(nil)
 		w = pworld.NewWorld()
 		if strings.HasPrefix(sc.Mode, "mitm") {
 			w.Proxy.SetMITM(mitmCfg)
@@ -624,6 +640,9 @@ func run(sc scenario) (body func(), check func(r *vrt.Result) []finding) {
 			vrt.Log("client %s: %v %v %q marker=%v eof=%v extra=%q err=%q done=%v", o.conn, o.statuses, o.warnings, o.resMut, o.gotMarker, o.eofAfter, o.extra, o.err, o.done)
 		}
 		vrt.Log("stale=%d", staleCtx)
+		if rnd != nil {
+			vrt.Log("random draws served: %d", len(rnd.served))
+		}
 	}
 	check = func(r *vrt.Result) []finding {
 		var out []finding
@@ -633,6 +652,12 @@ func run(sc scenario) (body func(), check func(r *vrt.Result) []finding) {
 			return out
 		}
 		tag := sc.Mode
+		// round 8: the class of random draws the scenario serves is part of the signature of what depends on them
+		dtag, ddesc := "", ""
+		if sc.Draws != "" {
+			dtag = ":" + drawClass(sc.Draws)
+			ddesc = fmt.Sprintf(" although the random source served pairwise different draws (%s)", strings.Join(rnd.served, " "))
+		}
 		// index calls per exchange
 		type key struct{ conn, seq string }
 		reqs := map[key][]call{}
@@ -699,7 +724,7 @@ func run(sc scenario) (body func(), check func(r *vrt.Result) []finding) {
 				add("session_value_lost:"+tag, "exchange %v: a value stored in the session by an earlier exchange of the connection is gone", ky)
 			}
 			if prev, dup := ids[c.CtxID]; dup {
-				add("context_id_reused:"+btag, "exchanges %v and %v share context id %s", prev, ky, c.CtxID)
+				add("context_id_reused:"+btag+dtag, "exchanges %v and %v share context id %s%s", prev, ky, c.CtxID, ddesc)
 			}
 			ids[c.CtxID] = ky
 			if s, ok := sessByConn[conn]; ok && s != c.Sess {
@@ -970,7 +995,7 @@ func run(sc scenario) (body func(), check func(r *vrt.Result) []finding) {
 				if b != "2" && sessByConn[a] != nil && sessByConn[a] == sessByConn[b] {
 					add("session_shared_across_connections:"+tag, "connections %s and %s share one session", a, b)
 				} else if sessIDByConn[a] != "" && sessIDByConn[a] == sessIDByConn[b] {
-					add("session_shared_across_connections:"+tag, "the sessions of connections %s and %s have the same id %s", a, b, sessIDByConn[a])
+					add("session_shared_across_connections:"+tag+dtag, "the sessions of connections %s and %s have the same id %s%s", a, b, sessIDByConn[a], ddesc)
 				}
 			}
 		}
@@ -1147,12 +1172,14 @@ func scenarios(tier string) []scenario {
 	}
 	// round 7: request spellings (target form x Host header x protocol version), see spell.go
 	out = append(out, spellScenarios(tier)...)
+	// round 8: the random source scripted - pairwise different draws that differ in one byte only, see draws.go
+	out = append(out, drawScenarios(tier)...)
 	return out
 }
 
 // added reports whether a scenario belongs to the families the audit added (see AUDIT.md).
 func added(sc scenario) bool {
-	if sc.After || sc.Beh2 != nil || sc.Mode2 != "" || sc.Spell != nil {
+	if sc.After || sc.Beh2 != nil || sc.Mode2 != "" || sc.Spell != nil || sc.Draws != "" {
 		return true
 	}
 	for i, b := range sc.Beh {
@@ -1186,11 +1213,12 @@ func main() {
 	tier := lib.Tier()
 	initMITM()
 	scen := scenarios(tier)
-	if os.Getenv("C02_ONLY") == "spell" {
-		// development aid: only the request-spelling family of round 7 (to measure it on its own)
+	if fam := os.Getenv("C02_ONLY"); fam == "spell" || fam == "draws" {
+		// development aid: only the request-spelling family of round 7 / the random-draw family of round 8 (to
+		// measure it on its own)
 		var only []scenario
 		for _, sc := range scen {
-			if sc.Spell != nil {
+			if (sc.Spell != nil && fam == "spell") || (sc.Draws != "" && fam == "draws") {
 				only = append(only, sc)
 			}
 		}
@@ -1245,6 +1273,9 @@ func main() {
 					b = 1 // the length-3 sequences are many (17^3 and their pipelined variants): deviation bound 1
 				} else if added(sc) {
 					b = 2 // the audit's scenarios (about half as many again): one deviation less than the original ones
+				}
+				if sc.Draws != "" && !strings.HasSuffix(sc.Draws, "base="+drawBases[0]) {
+					b = 1 // scripted random source: the second common byte value repeats the first one's scenarios at bound 1
 				}
 			}
 			if sc.Mode == "mitm-tls" {
@@ -1356,8 +1387,17 @@ func main() {
 		}
 	}
 	rep.Coverage["scenarios_request_spellings"] = nSpelled
+	nDraws := 0
+	for _, sc := range scen {
+		if sc.Draws != "" {
+			nDraws++
+		}
+	}
+	rep.Coverage["scenarios_scripted_random_source"] = nDraws
+	rep.Coverage["scripted_random_source"] = fmt.Sprintf("%d scenarios in which crypto/rand.Reader is a scripted reader for the execution: all draws pairwise different 8-byte values that differ in byte p only (p = 0..7: common prefix of p and common suffix of 7-p bytes) x differing in the low bits / in the high nibble only x common byte value; shapes: two concurrent plain connections with two exchanges each plus a later one, two intercepted plaintext tunnels, a blind tunnel beside a plain connection and a later one (thorough: also three exchanges on one connection, pipelined beside a second connection, tunnel with two inner exchanges); oracle: all context ids of the execution and the session ids of different connections pairwise different", nDraws)
 	rep.Coverage["request_spellings"] = fmt.Sprintf("%d spellings = target form %v x Host header %v x version %v; each x 7 behaviours (pass, route = the request modifier names the host of a request that names none, skip, reqerr, route+reserr, hijack-req, route+hijack-res) as a single exchange, keep-alive spellings followed by every spelling on the same connection, every spelling as the first request inside an intercepted tunnel", len(allSpellings()), spellForms, spellHosts, spellVersions)
 	rep.Coverage["bounds"] = fmt.Sprintf("%d scenarios (%d of them from the audit, AUDIT.md): plain mode with all behaviour sequences (30 behaviours incl. combinations: errors with one- and multi-line messages, two errors on one response, skip round trip combined with the other context marks in both orders, a RoundTripper answering on a clone of the request, modifiers that change the messages, requests with a body that a skipped or failed round trip leaves unread, hijackers whose modifier also fails, clients that close behind their request; the eleven newest paired with the eight basic ones) up to length %d, blind CONNECT x 16 behaviours (direct / through a downstream proxy), MITM with plaintext / TLS inside x CONNECT behaviours x inner behaviours; optional second concurrent connection (plain pass, or with behaviours / an intercepted tunnel of its own), optional later connection after all others have ended, pipelining (also of a request behind the hijacked one); %d scenarios over the spelling of the request (target form x Host header presence x protocol version, incl. requests that name no host and that only a request modifier makes routable); every schedule with <= %d deviations (one less for TLS scenarios; sequences of three exchanges: <= 1; thorough, the audit's scenarios: <= 2)", len(scen), nAdded, map[string]int{"quick": 2, "thorough": 3}[tier], nSpelled, map[string]int{"quick": 1, "thorough": 3}[tier])
+	rep.Coverage["bounds"] = fmt.Sprint(rep.Coverage["bounds"]) + fmt.Sprintf("; %d scenarios in which the scenario owns the proxy's random source (pairwise different 8-byte draws differing in one byte, every position, low bits / high nibble)", nDraws)
 	rep.Coverage["explanation"] = "each execution runs the real proxy.go/context.go over simnet under the gosim scheduler with recording modifiers; the clause that no context remains retrievable is judged through the public API (martian.NewContext on every request the modifiers saw)"
 	rep.Assumptions = []string{"round trips go through a synchronous harness RoundTripper (which validates header fields like http.Transport)", "TLS inside the tunnel uses crypto/tls unmodified on simnet connections", "unsynchronised accesses (context/session id generation, context table) are covered by the auxiliary free-running -race pass (sampling)"}
 	raceIters := "30"
